@@ -23,6 +23,15 @@ pub fn exec_line(line: &str) -> String {
             format!("same={}", (reused == fresh) as u8)
         });
     }
+    if t.len() == 4 && t[0] == "activation" && t[1] == "extpre" {
+        // activation extpre <spec> <addr>: built-in precompile behaviour on an Evm whose precompile set was extended
+        let Some(spec) = t[2].parse::<u8>().ok().and_then(SpecId::try_from_u8) else { return "bad-op".into() };
+        let Ok(a) = t[3].parse::<u64>() else { return "bad-op".into() };
+        return guarded(move || {
+            let addr = revm::precompile::u64_to_address(a);
+            format!("same={}", (call_tx_extended(addr, spec) == call_tx(addr, spec)) as u8)
+        });
+    }
     if t.len() != 4 || t[0] != "activation" {
         return "bad-op".into();
     }
@@ -79,6 +88,12 @@ pub fn gen() -> Vec<String> {
                     v.push(format!("activation reusepre {} {} {} {}", a as u8, b as u8, x, (i + j) % 2));
                 }
             }
+        }
+    }
+    // the embedder extends the precompile set through a handler register: every built-in address, every fork
+    for s in all_specs() {
+        for a in 0u64..=0x13 {
+            v.push(format!("activation extpre {} {}", s as u8, a));
         }
     }
     // opcode gates: neighbours in fork order (each activation boundary is crossed in both directions)
